@@ -88,7 +88,7 @@ pub fn run_one(ctx: &Ctx, world: &mut World, fam: &str, start: &StartState, prog
     let prog = Rc::new(prog);
     let real = world.run_real(start, &prog);
     let model = world.run_model(start, &prog);
-    let divs = compare(world, &prog, &real, &model);
+    let divs = compare(world, &start.mstate, &prog, &real, &model);
     st.programs += 1;
     st.invocations += real.trace.len() as u64;
     st.max_trace = st.max_trace.max(real.trace.len());
@@ -151,9 +151,21 @@ pub fn drive(ctx: &Ctx, fam: &dyn Family, starts: &[StartState], ext: bool, home
 
 /// Runs `prog` from `start` on both sides and returns the state reached (used to build
 /// non-initial start states). A divergence here is reported like any other.
-pub fn advance(ctx: &Ctx, world: &mut World, start: &StartState, prog: Program, name: &str, st: &mut TreeStats) -> StartState {
-    let (real, model) = run_one(ctx, world, "setup", start, prog, &|_| true, st, ":setup");
-    StartState { name: name.to_string(), storage: real.final_storage, block: start.block.clone(), mstate: model.st }
+pub fn advance(ctx: &Ctx, world: &mut World, start: &StartState, prog: Program, name: &str, homes: &dyn Fn(Kind) -> bool, st: &mut TreeStats) -> StartState {
+    let (real, model) = run_one(ctx, world, "setup", start, prog, homes, st, ":setup");
+    let mstate = resync(world, &real, model.st, st);
+    StartState { name: name.to_string(), storage: real.final_storage, block: start.block.clone(), mstate }
+}
+
+/// The model state to continue from: the model's own, unless it disagrees with what the real
+/// chain shows (the divergence has been classified already); then the observed one.
+pub fn resync(world: &World, real: &RealOut, model_st: super::model::MState, st: &mut TreeStats) -> super::model::MState {
+    if observable(&model_st, &world.info.staking_module) == real.obs {
+        model_st
+    } else {
+        *st.foreign.entry("model-resynchronised-with-observed-state".into()).or_default() += 1;
+        from_observed(&real.obs, &world.info.staking_module)
+    }
 }
 
 pub fn advance_block(world: &mut World, start: &StartState, name: &str) -> StartState {
@@ -169,12 +181,12 @@ pub struct Starts {
 }
 
 /// Genesis (three ring contracts) and the fixed non-initial start states of DESIGN §2.4.
-pub fn build_starts(ctx: &Ctx, st: &mut TreeStats) -> Starts {
+pub fn build_starts(ctx: &Ctx, homes: &dyn Fn(Kind) -> bool, st: &mut TreeStats) -> Starts {
     with_world(false, |world| {
         let ad = Addrs::of(world);
         let mut s = world.pre_genesis();
         for (i, p) in world.genesis_programs().into_iter().enumerate() {
-            s = advance(ctx, world, &s, p, &format!("genesis-step-{}", i), st);
+            s = advance(ctx, world, &s, p, &format!("genesis-step-{}", i), homes, st);
         }
         let mut genesis = s;
         genesis.name = "genesis".into();
@@ -182,7 +194,7 @@ pub fn build_starts(ctx: &Ctx, st: &mut TreeStats) -> Starts {
         let mut fixed = vec![];
         // after a committed nested transaction: root -> call other (ok) with reply, plus a bank leaf
         let committed = pick(&core, &ad, |p, m| m.result.is_ok() && p.nodes.len() >= 3 && m.trace.len() >= 3, world, &genesis);
-        fixed.push(advance(ctx, world, &genesis, committed, "after-committed-nested-tx", st));
+        fixed.push(advance(ctx, world, &genesis, committed, "after-committed-nested-tx", homes, st));
         // after the funded contract was drained
         let drain = Program {
             entry: Entry::Execute { sender: ad.rich.clone(), contract: ad.a.clone(), funds: vec![] },
@@ -193,18 +205,18 @@ pub fn build_starts(ctx: &Ctx, st: &mut TreeStats) -> Starts {
                 ..Default::default()
             }],
         };
-        fixed.push(advance(ctx, world, &genesis, drain, "after-drain", st));
+        fixed.push(advance(ctx, world, &genesis, drain, "after-drain", homes, st));
         // after an instantiate
         let inst = Program { entry: entry_of("instantiate", &ad), root: 0, nodes: vec![Node { writes: vec![WriteOp::Set(b"pre".to_vec(), b"new".to_vec())], ..Default::default() }] };
-        fixed.push(advance(ctx, world, &genesis, inst, "after-instantiate", st));
+        fixed.push(advance(ctx, world, &genesis, inst, "after-instantiate", homes, st));
         // after a migrate of A to code 2
         let mig = Program { entry: entry_of("migrate", &ad), root: 0, nodes: vec![Node { writes: vec![WriteOp::Set(b"migrated".to_vec(), b"1".to_vec())], ..Default::default() }] };
-        fixed.push(advance(ctx, world, &genesis, mig, "after-migrate", st));
+        fixed.push(advance(ctx, world, &genesis, mig, "after-migrate", homes, st));
         // after a block update
         fixed.push(advance_block(world, &genesis, "after-block-update"));
         // after a caught failure that rolled back a child and moved funds
         let caught = pick(&core, &ad, |_p, m| m.result.is_ok() && m.trace.iter().any(|r| r.reply.as_ref().map_or(false, |x| !x.ok)) && m.trace.len() >= 4, world, &genesis);
-        fixed.push(advance(ctx, world, &genesis, caught, "after-caught-failure", st));
+        fixed.push(advance(ctx, world, &genesis, caught, "after-caught-failure", homes, st));
         Starts { genesis, fixed }
     })
 }
@@ -222,7 +234,7 @@ fn pick(fam: &dyn Family, ad: &Addrs, pred: impl Fn(&Program, &ModelOut) -> bool
 }
 
 /// Every state reachable from `from` by at most `depth` transactions of the small alphabet.
-pub fn reachable_starts(ctx: &Ctx, from: &StartState, depth: usize, st: &mut TreeStats) -> Vec<StartState> {
+pub fn reachable_starts(ctx: &Ctx, from: &StartState, depth: usize, homes: &dyn Fn(Kind) -> bool, st: &mut TreeStats) -> Vec<StartState> {
     with_world(false, |world| {
         let ad = Addrs::of(world);
         let mut alphabet: Vec<Program> = vec![];
@@ -247,7 +259,7 @@ pub fn reachable_starts(ctx: &Ctx, from: &StartState, depth: usize, st: &mut Tre
             let mut next = vec![];
             for s in &frontier {
                 for (i, p) in alphabet.iter().enumerate() {
-                    let ns = advance(ctx, world, s, p.clone(), &format!("{}+t{}", s.name, i), st);
+                    let ns = advance(ctx, world, s, p.clone(), &format!("{}+t{}", s.name, i), homes, st);
                     let k = hash128(&(&ns.storage.data, ns.block.height));
                     if seen.insert(k) {
                         next.push(ns);
